@@ -4,8 +4,11 @@ import (
 	"context"
 	"errors"
 	"fmt"
+	"google.golang.org/grpc/codes"
+	"google.golang.org/grpc/status"
 	"math/rand"
 	"os"
+	"regexp"
 	"strings"
 	"sync"
 	"sync/atomic"
@@ -39,9 +42,9 @@ var soakMethods = func() []string {
 var soakNoCancel bool
 
 type soakStats struct {
-	calls, qfInv, lateEligible, cancelled, timedOut, oversize, never atomic.Int64
-	misattributed                                                    atomic.Int64
-	firstBad                                                         atomic.Pointer[string]
+	calls, qfInv, lateEligible, cancelled, timedOut, oversize, never, handlerErrs atomic.Int64
+	misattributed                                                                 atomic.Int64
+	firstBad                                                                      atomic.Pointer[string]
 }
 
 func (s *soakStats) bad(msg string) {
@@ -119,9 +122,14 @@ func newSoak(e *Env, o soakOpts, seed int64) (*soak, error) {
 				}
 			}
 			if x%2 == 0 {
-				return nil, fmt.Errorf("stream end")
+				return nil, status.Errorf(codes.Aborted, "scripted failure call=%d node=%d (stream end)", c.Req.GetCall(), c.E.Node)
 			}
 			return nil, nil
+		}
+		if x%9 == 4 {
+			// errors are attributed like replies: the text names the call and the node it is meant for
+			s.st.handlerErrs.Add(1)
+			return nil, status.Errorf(codes.Aborted, "scripted failure call=%d node=%d", c.Req.GetCall(), c.E.Node)
 		}
 		return c.Rep(0), nil
 	})
@@ -247,6 +255,9 @@ func (s *soak) oneCall(rng *rand.Rand) {
 		if err != nil && ctx.Err() == nil && (errors.Is(err, context.Canceled) || errors.Is(err, context.DeadlineExceeded)) {
 			st.bad(fmt.Sprintf("RPC call %d to node %d failed with %q although its own context has not ended (the error of another call)", tok, s.cl.IDs[node], err))
 		}
+		if err != nil {
+			s.checkScripted("RPC", tok, s.cl.IDs[node], err.Error())
+		}
 		if err == nil && (rep.GetCall() != tok || rep.GetNode() != s.cl.IDs[node] || rep.GetDigest() != h.Digest(req)) {
 			st.bad(fmt.Sprintf("RPC call %d to node %d returned a reply to call %d from node %d", tok, s.cl.IDs[node], rep.GetCall(), rep.GetNode()))
 		}
@@ -292,6 +303,7 @@ func (s *soak) checkErrText(m string, tok uint64, err error, targeted int, strea
 	}
 	for id, lines := range pe.Nodes {
 		for _, l := range lines {
+			s.checkScripted(m, tok, id, l)
 			// the library reports a context's own error (not a gRPC status) for a node only when the request's context ended
 			if live && (l == context.Canceled.Error() || l == context.DeadlineExceeded.Error()) {
 				s.st.bad(fmt.Sprintf("%s call %d: node %d failed with %q although the call's own context has not ended (the error of another call)", m, tok, id, l))
@@ -303,6 +315,17 @@ func (s *soak) checkErrText(m string, tok uint64, err error, targeted int, strea
 	}
 	if !stream && pe.Errors+pe.Replies > targeted {
 		s.st.bad(fmt.Sprintf("%s call %d: errors %d + replies %d exceed the %d targeted nodes", m, tok, pe.Errors, pe.Replies, targeted))
+	}
+}
+
+var scriptedRe = regexp.MustCompile(`scripted failure call=(\d+) node=(\d+)`)
+
+// checkScripted: a handler's error names the call and node it was produced for.
+func (s *soak) checkScripted(m string, tok uint64, node uint32, text string) {
+	if mm := scriptedRe.FindStringSubmatch(text); mm != nil {
+		if mm[1] != fmt.Sprint(tok) || mm[2] != fmt.Sprint(node) {
+			s.st.bad(fmt.Sprintf("%s call %d: under node %d it was handed the handler error produced for call %s by node %s", m, tok, node, mm[1], mm[2]))
+		}
 	}
 }
 
@@ -392,7 +415,7 @@ func (s *soak) run(seed int64) {
 // RunSoakAttribution is the engine behind C05.
 func RunSoakAttribution(e *Env) {
 	R := e.R
-	R.Rule = "concurrent soaks: 8-64 goroutines on one manager, 5-9 nodes, 6-20 overlapping configurations, all 21 call kinds (two-way mixed with one-way traffic, per-node functions), servers answering after seeded delays (most quick, some long after the call ended) and a share never until teardown, " +
+	R.Rule = "concurrent soaks: 8-64 goroutines on one manager, 5-9 nodes, 6-20 overlapping configurations, all 21 call kinds (two-way mixed with one-way traffic, per-node functions), servers answering after seeded delays (most quick, some long after the call ended), one answer in nine being an error status that names its call and node, and a share never until teardown, " +
 		"contexts already ended / cancelled after a random delay / timing out; online oracle inside every quorum function and on every return value: own token, node stamp = map key, digest of the request meant for that node, one new key per invocation for non-stream calls; " +
 		"distinct = soak parameters; non-trivial = every soak (>= 8 goroutines on shared nodes)"
 	R.Assume("every request carries a unique token and per-node payload; a reply identifies the request that caused it")
@@ -438,6 +461,7 @@ func RunSoakAttribution(e *Env) {
 		R.Count("calls_cancelled", st.cancelled.Load())
 		R.Count("calls_timed_out", st.timedOut.Load())
 		R.Count("handlers_never_answering_until_teardown", st.never.Load())
+		R.Count("handlers_answering_with_an_error_naming_call_and_node", st.handlerErrs.Load())
 		R.Count("calls_oversized(write fails, stream aborted)", st.oversize.Load())
 		R.Count("server_restarts", int64(o.Restarts))
 		R.Sample(map[string]any{"soak": o, "calls": st.calls.Load(), "qf_invocations": st.qfInv.Load()})
